@@ -136,13 +136,13 @@ def oracle(case, res):
         with warnings.catch_warnings():
             warnings.simplefilter('ignore')
             with np.errstate(all='ignore'):
-                ds = D.Dataset(); ds['v'] = arr
+                ds = D.Dataset(); ds['v'] = arr; ds.attrs['note'] = 'kept'
                 if arr.ndim > 1: ds['w'] = arr.take({a['dims'][p]: 0}, indexing='position')
                 kw = {}
                 if left is not None: kw['left'] = None if left == 'edge' else left
                 if right is not None: kw['right'] = None if right == 'edge' else right
                 rds = ds.interp_axis(ops.labs_np(pts, kind), axis=a['dims'][p], **kw)
-                gv = arr_json(rds['v'])
+                gv = arr_json(rds['v']); ds_attrs = dict(rds.attrs)
     except Exception as e:
         return 'Dataset.interp_axis raised %s where the array method succeeds' % type(e).__name__
     if obs_dims(gv) != obs_dims(rr) or len(gv['flat']) != len(rr['flat']): return 'Dataset.interp_axis: dims / shape differ from the array result'
@@ -150,6 +150,8 @@ def oracle(case, res):
         if isinstance(g, dict) != isinstance(y, dict) or (not isinstance(g, dict) and abs(float(g) - float(y)) > 1e-9 * (1 + abs(float(y)))):
             return 'Dataset.interp_axis gives %r where DimArray.interp_axis gives %r (left=%r right=%r)' % (g, y, left, right)
     if not labs_eq(gv['axes'][p]['labels'], pts): return 'Dataset.interp_axis: axis is not the new points'
+    if gv['attrs'] != rr['attrs']: return 'Dataset.interp_axis: the metadata of the variable is %r, DimArray.interp_axis keeps %r' % (gv['attrs'], rr['attrs'])
+    if ds_attrs != {'note': 'kept'}: return 'Dataset.interp_axis: the metadata of the dataset became %r' % (ds_attrs,)
     if arr.ndim > 1:
         w0 = arr_json(arr.take({a['dims'][p]: 0}, indexing='position')); w1 = arr_json(rds['w'])
         if json.dumps(w0, sort_keys=True, default=str) != json.dumps(w1, sort_keys=True, default=str): return 'Dataset.interp_axis changed a variable that lacks the axis'
